@@ -824,6 +824,8 @@ class LocalList(list):
     "a list created by the interpreted code itself (mutation allowed)"
 class LocalDict(dict):
     "a dict created by the interpreted code itself (mutation allowed)"
+class LocalSet(set):
+    "a set of concrete hashable items created by the interpreted code itself (mutation allowed)"
 class ExcValue:
     def __init__(self, cls, args): self.cls, self.args = cls, args
 class _Deleted: pass
